@@ -28,6 +28,7 @@ ANCHORS = [
     "prov.model:parse_xsd_datetime", "prov.model:parse_boolean", "prov.model:ProvBundle.new_record",
 ]
 U = {"ex": "http://ex.org/", "ex2": "http://ex.org/sub/", "o": "urn:x:"}
+U_BUNDLE = {"ex": "http://bundle.example/ex/", "ex2": "http://ex.org/sub/", "o": "urn:x:"}   # the bundle re-binds 'ex' 
 DEFAULT = "http://default.org/"
 PROVNS = monitors.PROVNS
 LOCALS = ["e1", "e2", "a1", "a2", "ag1", "ag2", "x"]
@@ -82,8 +83,11 @@ def rand_ref(r):
     return {"ns": r.choice(sorted(U)), "local": r.choice(LOCALS)}
 
 
+CUR = {"map": U}
+
+
 def ref_uri(ref):
-    return (DEFAULT if ref["ns"] == "" else U[ref["ns"]]) + ref["local"]
+    return (DEFAULT if ref["ns"] == "" else CUR["map"][ref["ns"]]) + ref["local"]
 
 
 def rand_rep(r, ref):
@@ -122,6 +126,8 @@ def rand_plain_value(r):
     if k == "lang":
         return {"k": "lang", "v": r.choice(["hi", "été"]), "lang": r.choice(["en", "fr"])}
     if k == "foreign":
+        if r.random() < 0.4:
+            return {"k": "custom_lit", "v": r.choice(["12.5", "x y", ""]), "dtns": r.choice(sorted(U)), "dt": r.choice(["cm", "T1"])}
         return {"k": "lit", "v": r.choice(["7", "1.50"]), "dt": r.choice(["short", "decimal", "gYear"])}
     t = r.choice(sorted(NATIVE))
     lex = r.choice(NATIVE[t][0])
@@ -234,7 +240,7 @@ def rec_snapshot(rec, exempt):
 
 def attr_uri(name):
     p, l = name.split(":")
-    return (PROVNS if p == "prov" else U[p]) + l
+    return (PROVNS if p == "prov" else CUR["map"][p]) + l
 
 
 class Driver:
@@ -244,13 +250,23 @@ class Driver:
         self.doc.set_default_namespace(DEFAULT)
         for p, u in U.items():
             self.doc.add_namespace(p, u)
-        self.scope = self.doc.bundle("ex:bundle1") if case["in_bundle"] else self.doc
-        self.ns = {p: Namespace(p, u) for p, u in U.items()}
+        CUR["map"] = U
+        if case["in_bundle"]:
+            # the same strings are resolved at document level first (warms anything that might be shared between scopes) ...
+            self.doc.entity("ex:e1")
+            self.doc.entity("ex:a1", {"ex:tag": "doc-level"})
+            self.scope = self.doc.bundle("o:bundle1")
+            # ... and the bundle binds 'ex' to another namespace: every spelling below must denote the bundle's URI
+            self.scope.add_namespace("ex", U_BUNDLE["ex"])
+            CUR["map"] = U_BUNDLE
+        else:
+            self.scope = self.doc
+        self.ns = {p: Namespace(p, u) for p, u in CUR["map"].items()}
         self.elem_cache = {}
 
     # representations -------------------------------------------------------------------------
     def name(self, ref, rep):
-        uri_ns = DEFAULT if ref["ns"] == "" else U[ref["ns"]]
+        uri_ns = DEFAULT if ref["ns"] == "" else CUR["map"][ref["ns"]]
         l = ref["local"]
         if rep == "qn" and ref["ns"] == "":
             rep = "qn_default"
@@ -304,6 +320,10 @@ class Driver:
             return pm.Literal(v["v"], langtag=v["lang"]), ("lit", v["v"], PROVNS + "InternationalizedString", v["lang"])
         if k == "lit":
             return pm.Literal(v["v"], XSD[v["dt"]]), ("lit", v["v"], monitors.XSDNS + v["dt"], None)
+        if k == "custom_lit":
+            # a user-defined datatype, given under a foreign prefix object: it is re-homed in the scope, its value must survive
+            return (pm.Literal(v["v"], Namespace("units", CUR["map"][v["dtns"]])[v["dt"]]),
+                    ("lit", v["v"], CUR["map"][v["dtns"]] + v["dt"], None))
         native = NATIVE[v["t"]][1](v["lex"])
         if k == "native_lit":
             return pm.Literal(v["lex"], XSD[v["t"]]), native
